@@ -509,3 +509,36 @@ size_t lenext_read_good(const uint8_t* ip) {
     do { s = *ip++; len += s; } while (255 == s);
     return len;
 }
+
+/* ---- R27, destructor form: a member handed to its destructor through a local copy, after a helper that
+ * may or may not have replaced it */
+typedef struct { int* pages; } ctl_grp_t;
+void ctl_grp_destroy(ctl_grp_t* g) { if (!g) return; free(g->pages); free(g); }
+typedef struct { ctl_grp_t* cur; int rows; } ctl_wr_t;
+void ctl_wr_close(ctl_wr_t* w) { if (!w) return; ctl_grp_destroy(w->cur); free(w); }
+static int ctl_wr_flush(ctl_wr_t* w, int fail) {
+    if (fail) return -5;
+    ctl_grp_destroy(w->cur);
+    w->cur = NULL;
+    return 0;
+}
+int stale_alias_bad(ctl_wr_t* w, int fail) {
+    ctl_grp_t* g = w->cur;
+    int st = ctl_wr_flush(w, fail);
+    if (st == -5 && g) {
+        ctl_grp_destroy(g);
+        g = NULL;                               /* only the local forgets it: ctl_wr_close destroys it again */
+        w->rows = 0;
+    }
+    return st;
+}
+int stale_alias_good(ctl_wr_t* w, int fail) {
+    ctl_grp_t* g = w->cur;
+    int st = ctl_wr_flush(w, fail);
+    if (st == -5 && g) {
+        ctl_grp_destroy(g);
+        w->cur = NULL;
+        w->rows = 0;
+    }
+    return st;
+}
